@@ -23,6 +23,64 @@ EXPLANATION = (
 ASSUMPTIONS = ["evhttp_find_header returns the field value with surrounding white space removed", "evutil_strtoll behaves like strtoll"]
 
 
+RESUME_EXC = {"evhttp_get_request_connection": "a connection that has just been accepted: nothing has been read from the socket yet, the first read event starts the parser"}
+CONSUMERS = ("evhttp_read_firstline", "evhttp_read_header", "evhttp_read_body", "evhttp_read_trailer", "evhttp_get_body", "evhttp_read_cb")
+ENDERS = ("evhttp_connection_fail_", "evhttp_connection_done", "evhttp_connection_free", "evhttp_lingering_fail", "evhttp_lingering_close", "evhttp_connection_reset_",
+          "evhttp_send_error", "evhttp_send_reply", "evhttp_send_page_")      # a reply written at this point ends the reading of this request
+
+
+def rule_read_resume(P):
+    """a message whose bytes are already in the input buffer must not depend on another segment arriving: whoever puts the connection into a READING state either goes on parsing at once,
+    or schedules the deferred read when the input buffer is not empty (evhttp_start_read_), or ends the exchange"""
+    r = Rule("C24-read-resume", "K3", "every switch of evcon->state to a READING state is followed on every path by parsing the buffered input, by scheduling the deferred read for it, or by the end of "
+             "the exchange (what a response is must not depend on how the stream is segmented)", floor=4)
+    vals = {}
+    for nm in ("EVCON_READING_FIRSTLINE", "EVCON_READING_HEADERS", "EVCON_READING_BODY", "EVCON_READING_TRAILER"):
+        vals[P.enum_val(nm)] = nm
+    for f in P.fns_in("http.c"):
+        for el, lhs, op, rhs in f.stores():
+            if op != "=" or fields_of(lhs)[-1:] != ["evhttp_connection.state"]:
+                continue
+            try:
+                v = evalx(rhs, {}, P)
+            except Exception:
+                v = None
+            if v not in vals:
+                continue
+
+            def settled(x):
+                if x.e[0] == "call":
+                    n = callee_name(x.e)
+                    if n in CONSUMERS or n in ENDERS:
+                        return True
+                    if n == "event_deferred_cb_schedule_" and any(is_e(q, "fld") and q[2] == "evhttp_connection.read_more_deferred_cb" for q in walk(x.e)):
+                        return True
+                    if n in ("evhttp_start_read_",):
+                        return True
+                if x is not el and x.e[0] == "asg" and fields_of(x.e[2])[-1:] == ["evhttp_connection.state"]:
+                    return True          # the next switch is judged on its own
+                return False
+
+            def skip_edge(blk, succ, lab):
+                # `if (evbuffer_get_length(input)) schedule...`: on the edge where the buffer is empty there is nothing to resume
+                c = blk.term.get("cond") if blk.term else None
+                if c is None or not any(is_e(q, "call") and callee_name(q) == "evbuffer_get_length" for q in walk(c)):
+                    return False
+                c2, t = negate_truth(c, True)
+                if is_e(strip(c2), "call") and callee_name(strip(c2)) == "evbuffer_get_length":
+                    return lab == ("F" if t else "T")
+                return False
+            w = f.exit_reachable_avoiding(el.pos(), settled, skip_edge=skip_edge)
+            exc = RESUME_EXC.get(f.name)
+            r.inst((f.name, el.n), {"fn": f.name, "site": el.where(), "state": vals[v], "leaves_buffered_input_unread_at": (w.where() if hasattr(w, "where") else "end of function") if w else None,
+                                    "exception": exc})
+            if w and not exc:
+                r.bad("K3:%s:buffered-input-not-resumed:%s" % (f.name, vals[v]), el.where(), f.name,
+                      "the connection is switched to %s and the function returns (%s) without parsing the input buffer, scheduling read_more_deferred_cb for it, or ending the exchange: bytes of the "
+                      "message that arrived in the same segment are looked at only when MORE bytes arrive - a complete response stays unread" % (vals[v], w.where() if hasattr(w, "where") else "falls off its end"))
+    return r
+
+
 def run(ctx, config):
     P = ctx.prog(UNITS, config)
     r = Rule("%s-framing" % __name__.split(".")[-1], "K6", "%s body framing decision equals RFC 9112 6.1/6.3 on the abstract header domain" % WHAT, floor=250)
@@ -56,4 +114,4 @@ def run(ctx, config):
             seen.add(f_.key)
             uniq.append(f_)
     r.findings = uniq
-    return [r, CH.rule_chunked(P, "%s-chunked" % __name__.split(".")[-1], WHAT)] + ([HE.rule_error_cb(P, "C24-eof")] if KIND == H.RESPONSE else [])
+    return [r, CH.rule_chunked(P, "%s-chunked" % __name__.split(".")[-1], WHAT)] + ([HE.rule_error_cb(P, "C24-eof"), rule_read_resume(P)] if KIND == H.RESPONSE else [])
